@@ -1,4 +1,4 @@
-import TshVerif.Model.EmitBash
+import TshVerif.Model.ConvBash
 namespace Tsh.C03
 open Tsh Tsh.Bash
 
